@@ -149,6 +149,11 @@ type c13Result struct {
 }
 
 func runC13Once(c c13Case, st *hx.Stats) (*c13Result, error) {
+	return runC13With(c, st, 150*time.Millisecond)
+}
+
+// runC13With: readTimeout is the server's idle limit in the "timeout" ending.
+func runC13With(c c13Case, st *hx.Stats, readTimeout time.Duration) (*c13Result, error) {
 	sc := c.scenario()
 	root, err := hx.Scratch("c13")
 	if err != nil {
@@ -174,7 +179,7 @@ func runC13Once(c c13Case, st *hx.Stats) (*c13Result, error) {
 	g0 := runtime.NumGoroutine()
 	opts := hx.InprocOpts{AllowWrite: sc.AllowWrite}
 	if c.Ending == "timeout" {
-		opts.ReadTimeout = 150 * time.Millisecond
+		opts.ReadTimeout = readTimeout
 	}
 	tg, err := hx.StartInprocFs(base, opts)
 	if err != nil {
@@ -246,7 +251,7 @@ func runC13Once(c c13Case, st *hx.Stats) (*c13Result, error) {
 			t0 := time.Now()
 			data, closed, err := conn.ReadToEnd(64)
 			if err != nil || !closed || len(data) > 0 {
-				runErr = hx.Failf("idle-cut", "idle connection with a 150 ms read timeout: closed=%v err=%v bytes=%d after %v", closed, err, len(data), time.Since(t0))
+				runErr = hx.Failf("idle-cut", "idle connection with a short read timeout: closed=%v err=%v bytes=%d after %v", closed, err, len(data), time.Since(t0))
 			}
 		}
 	}
@@ -307,6 +312,11 @@ func orDefault(s, d string) string {
 
 func runC13(c c13Case, st *hx.Stats) error {
 	res, err := runC13Once(c, st)
+	if _, isFail := err.(*hx.Fail); isFail && c.Ending == "timeout" {
+		// the server cuts this connection after 150 ms of silence: on a busy machine a request may simply have been
+		// late. Nothing judged here depends on the length of that limit, so the case is decided with a 3 s limit.
+		res, err = runC13With(c, nil, 3*time.Second)
+	}
 	if err != nil && isTimeoutErr(err) {
 		res, err = runC13Once(c, nil)
 		if err != nil && isTimeoutErr(err) {
